@@ -12,21 +12,32 @@ One request per stdin line, one answer per stdout line (lower-case hex, or `erro
     desenc <keyhex> <blockhex>     desdec <keyhex> <blockhex>
     aesenc <keyhex> <blockhex>
     md5rep <n> <bytehex>           sha1rep <n> <bytehex>
+    selftest
 
 `md5 `/`sha1 ` with nothing after the space hash the empty string.  The `*rep` forms hash
 `n` copies of one octet (e.g. `md5rep 1000000 61`) and additionally report the elapsed
 time and throughput on stderr; they exist so that large inputs can be timed without the
-cost of hex-decoding them.  See `GufoSnmp/Model/Crypto/crosscheck.py`.
+cost of hex-decoding them.  `selftest` prints `selfTestFull` (all known-answer vectors
+including the two 10⁶ × `a` ones).  See `GufoSnmp/Model/Crypto/crosscheck.py`.
+
+Note that `lean --run` executes the `GufoSnmp` modules with the IR *interpreter* (about
+0.2–0.4 MiB/s for the hashes).  For native speed (about 17–25 MiB/s end to end from a `List UInt8`) link the C files that
+`lake build` already produced:
+
+    cd /verif/lean && lake build GufoSnmp.Model.Crypto.Vectors
+    lake env lean -c /tmp/CryptoBench.c CryptoBench.lean
+    lake env leanc -O3 -o /tmp/cryptobench /tmp/CryptoBench.c \
+      .lake/build/ir/GufoSnmp/Model/Crypto/{Md5,Sha1,Des,Aes,Vectors}.c
+    python3 GufoSnmp/Model/Crypto/crosscheck.py --bin /tmp/cryptobench
 -/
 open GufoSnmp.Crypto
 
 /-- Hash `n` copies of `byte` with `h`, reporting the time spent in `h` on stderr. -/
 def timedRep (name : String) (h : List UInt8 → List UInt8) (n : Nat) (byte : UInt8) : IO String := do
-  let msg := List.replicate n byte
+  let msg ← IO.lazyPure fun _ => List.replicate n byte
   let t0 ← IO.monoNanosNow
-  let d := h msg
-  -- force the digest before reading the clock
-  let out := hex d
+  -- `IO.lazyPure` sequences the pure computation between the two clock reads
+  let out ← IO.lazyPure fun _ => hex (h msg)
   let t1 ← IO.monoNanosNow
   let ms := (t1 - t0) / 1000000
   let rate := if t1 > t0 then (n * 1000000000 / (t1 - t0)) * 100 / 1048576 else 0
@@ -46,6 +57,7 @@ def answer (line : String) : IO String := do
       | out => hex out
     | _, _ => "error: bad hex"
   match line.trimAscii.toString.splitOn " " with
+  | ["selftest"] => return toString selfTestFull
   | ["md5"] => return hex (md5 [])
   | ["sha1"] => return hex (sha1 [])
   | ["md5", m] => return match bytes m with | .ok m => hex (md5 m) | .error e => s!"error: {e}"
